@@ -278,12 +278,16 @@ fn prior_spec(spec: &crate::kit::Spec) -> crate::kit::Spec {
             *frac = Some(1.0);
             *bounds = None;
         }
-        Spec::Cmp { parts, .. } => {
+        Spec::Cmp { parts, weights } => {
             for p in parts.iter_mut() {
                 *p = prior_spec(p);
             }
+            // ... and a metric that weighs every component but the first 20 times lighter
+            for w in weights.iter_mut().skip(1) {
+                *w *= 0.05;
+            }
         }
-        Spec::Se2 { .. } | Spec::Se3 { .. } => {}
+        Spec::Se2 { weight, .. } | Spec::Se3 { weight, .. } => *weight *= 0.05,
     }
     s
 }
@@ -298,8 +302,15 @@ fn prior_life<K: Kit>(rig: &mut Rig<K>, sc: &Scenario, seq: &[u8], same_space: b
     let pspec = if same_space { sc.spec.clone() } else { prior_spec(&sc.spec) };
     let space = if same_space { rig.space.clone() } else { std::sync::Arc::new(Scripted::<K>::new(K::build(&pspec), rig.alphabet.clone())) };
     let dist = crate::scen::dist_fn::<K>(&pspec);
-    let p_start = rig.goal.samples[0].clone();
-    let goal = std::sync::Arc::new(HGoal::<K>::new(vec![(rig.start.clone(), sc.goal_balls[0].1)], vec![rig.start.clone()], dist));
+    // start and goal exchanged - or, for every other sample sequence of the other-space life, the SAME start
+    // and goal (a planner that recognises "the same query" by its start and its checker must still notice
+    // that the space is another one)
+    let same_query = !same_space && seq.iter().map(|x| *x as usize).sum::<usize>() % 2 == 0;
+    let (p_start, goal) = if same_query {
+        (rig.start.clone(), std::sync::Arc::new(HGoal::<K>::new(sc.goal_balls.iter().map(|(c, r)| (K::from_v(c), *r)).collect(), rig.goal.samples.clone(), dist)))
+    } else {
+        (rig.goal.samples[0].clone(), std::sync::Arc::new(HGoal::<K>::new(vec![(rig.start.clone(), sc.goal_balls[0].1)], vec![rig.start.clone()], dist)))
+    };
     let pd = std::sync::Arc::new(crate::drv::Pd::<K> { space: space.clone(), start_states: vec![p_start], goal });
     let n = seq.len().max(1);
     if same_space {
